@@ -91,6 +91,11 @@ func c17Check(r *kvh.Runner, op *kvh.Op, s *c17State) *kvh.Fail {
 		return &kvh.Fail{Sig: "stat-live-bytes", Msg: fmt.Sprintf("after %s: DiskSize-ReclaimableSize = %d-%d = %d, live records occupy %d bytes (%d keys)", op.K, stat.DiskSize, stat.ReclaimableSize, got, rp.LiveBytes, len(rp.Live))}
 	}
 	// file-size limit clause
+	if op.K == "merge" && errors.Is(r.LastMergeErr, kv.ErrMergeFileIDConflict) {
+		// a Merge call that gets as far as rewriting first removes what an earlier, not yet adopted merge left
+		// behind; when it is then abandoned nothing is pending any more, and the old files keep their limits
+		s.mergeSeen = false
+	}
 	if op.K == "merge" && r.LastMergeErr == nil {
 		// files below the id that was active right after the merge rotation will be replaced by merge output written under today's limit
 		s.mergeLim = r.Opt.FileSize
